@@ -176,8 +176,14 @@ func init() {
 					copy(data, []byte{0x30, 0x31, 0x63, 0x64})
 				}
 			} else {
-				for k := 0; k < 1+r.Intn(3); k++ {
-					data = append(data, randRtp(r)...)
+				np := 1 + r.Intn(3)
+				for k := 0; k < np; k++ {
+					p := randRtp(r)
+					if k > 0 && r.Intn(2) == 0 { // same SIM as the first packet except for one BCD byte
+						copy(p[8:14], data[8:14])
+						p[8+r.Intn(6)] = byte(r.Intn(10)<<4 | r.Intn(10))
+					}
+					data = append(data, p...)
 				}
 				if r.Intn(2) == 0 {
 					data = data[:r.Intn(len(data)+1)]
